@@ -140,6 +140,21 @@ func init() {
 		}})
 }
 
+func init() {
+	reg(&PropSpec{ID: "C03", Title: "Declared lengths equal emitted bytes; back-to-back frames decode in sequence", DesignRef: "DESIGN.md §4 C03",
+		Groups: []Group{
+			{Funcs: `^primitive\.(Write|LengthOf)[A-Za-z]+$`, OnlyCt: true},
+			{Funcs: `^\(\*frame\.codec\)\.(uncompressedBodyLength|encodeBodyUncompressed|EncodeHeader|encodeFrameUncompressed|EncodeRawFrame)$`, OnlyCt: true},
+			{Funcs: `^message\.lemmaLen[A-Za-z]+$`, OnlyCt: true},
+		},
+		Assume: []string{
+			"ASSUMED, not proved: for the map-typed notations ([string map], [string multimap], [bytes map], named values) the writer and the length function agree (both range over a Go map; tied to one abstract length)",
+			"encLen(codec, message, version): the frame-level statements use one abstract length per (codec, message, version); it is discharged per codec by lemma functions that execute Encode and EncodedLength on the same message - for 12 of the 17 codecs (STARTUP, OPTIONS, READY, AUTHENTICATE, AUTH_CHALLENGE, AUTH_RESPONSE, AUTH_SUCCESS, SUPPORTED, QUERY, PREPARE, EXECUTE, REVISE); BATCH, RESULT, REGISTER, EVENT and ERROR are NOT under proof",
+			"body length fits a signed 32-bit integer (precondition of encodeFrameUncompressed / EncodeRawFrame); messages are not modified while being encoded",
+			"the decoder half (DecodeFrame consumes header + BodyLength) and compressed bodies are not covered here",
+		}})
+}
+
 // Select returns the functions (keys) of a property with their class filters.
 func (p *PropSpec) Select(w *World) map[string]*Group {
 	out := map[string]*Group{}
